@@ -3,7 +3,7 @@ from props.common import *
 from props.vmcommon import generated_leg
 import binascii
 
-MODULE = ["PestModel.Thm.C01", "PestModel.Thm.EndToEnd"]
+MODULE = ["PestModel.Thm.C01", "PestModel.Thm.EndToEnd", "PestModel.Thm.TextToParse"]
 DRV, MODE = "drv_sem", "grammar"
 LISTER_ID = "C05-lister-not-preserving"
 WSLEAK_ID = "C01-whitespace-stack-leak"
